@@ -435,7 +435,7 @@ func init() {
 		Parts: func(tier string) []drv.Part {
 			pre, b := 1, 3*time.Minute
 			if tier == "thorough" {
-				pre, b = 2, 40*time.Minute
+				pre, b = 2, 20*time.Minute
 			}
 			env := []string{"GOMAXPROCS=1"}
 			all := []int{0, 1, 2, 3, 4, 5, 6, 7}
